@@ -35,6 +35,8 @@ def main():
     subprocess.run(["git", "-C", "/repo", "worktree", "add", "--detach", wt, "HEAD", "-q"], check=True)
     shutil.copy("/repo/Cargo.lock", wt)
     r = subprocess.run(["git", "-C", wt, "apply", os.path.abspath(a.patch)], stdout=subprocess.PIPE, stderr=subprocess.STDOUT, text=True)
+    if r.returncode != 0:    # context moved since the patch was made (e.g. hook lines added): three-way
+        r = subprocess.run(["git", "-C", wt, "apply", "-3", os.path.abspath(a.patch)], stdout=subprocess.PIPE, stderr=subprocess.STDOUT, text=True)
     if r.returncode != 0:
         print("PATCH DOES NOT APPLY:", r.stdout)
         subprocess.run(["git", "-C", "/repo", "worktree", "remove", "--force", wt])
